@@ -78,9 +78,9 @@ def run(tier, seed):
     g = grid()
     stimuli = []
 
-    def add(op, a, b="", k=0, fb=False):
+    def add(op, a, b="", k=0, fb=False, c=None):
         stimuli.append({"id": len(stimuli) + 1, "op": op, "a": lit(a) if not isinstance(a, str) else a,
-                        "b": b if isinstance(b, str) else lit(b), "k": k, "fb": fb})
+                        "b": b if isinstance(b, str) else lit(b), "k": k, "fb": fb, "c": "" if c is None else lit(c)})
 
     # (1) the boundary grid, all pairs x every binary operator; unary operators on the grid
     for a in g:
@@ -122,6 +122,22 @@ def run(tier, seed):
             for fl in {f, f * (1 + 2**-52), f * (1 - 2**-52)} if f not in (0.0,) else {0.0, 5e-324, -5e-324}:
                 for op in CMP:
                     add(op, a, repr(fl).replace("e", "d") if "e" in repr(fl) else repr(fl) + "d0", fb=True)
+    # (5) isqrt next to perfect squares: k*k - 1, k*k, k*k + 1 for roots where a float64 square root rounds the wrong way
+    # (k*k just below 2^53, just above, at the fixnum boundary) and seeded roots of 27 .. 40 bits
+    roots = [2**26, 2**26 + 1, 67108865, 94906265, 94906266, 94906267, 2**31 - 1, 2**31, 2**31 + 1, 3037000499, 3037000500, 2**32 + 1, 2**40 + 3, 2**64 + 1]
+    roots += [rng.randrange(2**26 + 1, 94906266) for _ in range(40)] + [rng.getrandbits(rng.choice([27, 31, 33, 40])) + 2 for _ in range(40)]
+    for k in roots:
+        for n in (k * k - 1, k * k, k * k + 1):
+            add("isqrt", n)
+    # (6) comparisons of three arguments, also integers (and ratios) that differ but have the same float64 value, in every order
+    trip = [(2**53 + 1, 1, 2**53), (2**53, 2**53 + 1, 2**53 + 2), (2**64 + 1, 2**64, 2**64 + 2), (-(2**63) - 1, -(2**63), 0), (1, 2, 3), (3, 3, 3),
+            (2, 2, 3), (10**30 + 1, 7, 10**30), (Fraction(1, 3), 0, Fraction(6004799503160661, 18014398509481984)), (Fraction(1, 2), Fraction(2, 4), 1)]
+    trip += [tuple(rng.choice(g) for _ in range(3)) for _ in range(60)]
+    import itertools
+    for t3 in trip:
+        for x, y, z in set(itertools.permutations(t3)):
+            for op in CMP:
+                add(op, x, y, c=z)
     # (4) seeded operands up to 200 bits
     extra = 3000 if tier == "quick" else 150000
     for _ in range(extra):
@@ -162,7 +178,7 @@ def run(tier, seed):
     rep.cov.update({"states": res["states"], "transitions": res["lines"], "traces_validated_against_impl": len(stimuli),
                     "evaluations": len(stimuli), "distinct_nontrivial": len({(s["op"], s["a"], s["b"], s["k"]) for s in stimuli}),
                     "rule": f"all pairs of a {len(g)}-value boundary grid (0, +-1, +-2, +-7, +-2^31, +-2^32, +-2^62, 2^63-1, -2^63, +-2^63, +-2^64, "
-                            f"+-(2^64+-1), +-(2^130+12345), factor pairs around the fixnum boundary: +-2^16, 2^21, 2^31+-1, 2^32+-1, 2^42, 2^47, 3037000499/500, 2^62+-1) x {len(ARITH + CMP + INT2)} binary operators, unary operators, ash / expt / isqrt, every pair of integers -12..12 through the integer division family, / and *, ratios of "
+                            f"+-(2^64+-1), +-(2^130+12345), factor pairs around the fixnum boundary: +-2^16, 2^21, 2^31+-1, 2^32+-1, 2^42, 2^47, 3037000499/500, 2^62+-1) x {len(ARITH + CMP + INT2)} binary operators, unary operators, ash / expt / isqrt (also k*k-1, k*k, k*k+1 for roots around 2^26 .. 2^32), comparisons of three arguments (values with equal float64 images in every order), every pair of integers -12..12 through the integer division family, / and *, ratios of "
                             f"grid values, comparisons against adjacent double floats (exhaustive over the grid) + {extra} seeded operands up to "
                             "200 bits; operands are stored in variables and re-read after every call; every event is judged under TLC by the "
                             "acceptor NumericTrace: defining relations on limb arithmetic with verified certificates, lowest terms, "
